@@ -43,7 +43,8 @@ tree after the `name` callback, handed on by `toR`).  Theorems quantify over ALL
   **text level**: `bench_text_roundtrip`, `verilog_text_roundtrip` — `parse (print x) = some x` for every statement list /
   module list whose names can be written (decidable `validStmt` / `validModule`); `bench_text_layout_irrelevant`,
   `verilog_text_layout_irrelevant` — the same for EVERY layout of the token stream (any ignorable text in front and behind each
-  token: blanks, line breaks, comments of every kind, attributes; decidable `layoutOK`), corollaries
+  token: blanks, line breaks, comments of every kind, attributes; decidable `layoutOK`), and for every SPELLING of every token
+  (token classes: `bench_text_keyword_class`, `verilog_text_token_classes`, `const_spelling_class`, … — see finding 10(a) below), corollaries
   `bench_text_between_statements`, `bench_text_trailing_comment`; `bench_text_to_netlist`, `verilog_text_to_netlist` — the circuit model (1) builds from model
   (2)'s reading of the printed text is the circuit of the statement list, which puts all theorems of (1) behind the text.
   NOT a theorem: the converse (every accepted text is a layout of a token stream) and anything about rejected texts.
@@ -86,14 +87,36 @@ tree after the `name` callback, handed on by `toR`).  Theorems quantify over ALL
   (tags `parsed-sem:*:benchArityB=` / `vArityB=`; disagreement with the generator's knowledge = broken tie); the generators produce
   5..9-input gates (bench kinds, library PRIM), the oracle's ground truth is n-ary, its class `wide-gate` is known finding D33;
   outside the domain σ is compared with the first-four-operands reading (the model follows the code).
-  **Audit finding 10, what was done and what stays restricted.**  (a) TEXT LAYOUTS: `bench_text_layout_irrelevant` / `bench_text_to_net`
-  quantify over the layouts of the CANONICAL token stream `benchToks` — every interface statement spelled `INPUT`; texts spelling
-  `OUTPUT(` / `input(` / `output(` are NOT covered by the layout theorems (they are by `parseBench` itself, by the concrete examples and
-  by the correspondence run on every generated text, which uses all four spellings); `verilog_text_layout_irrelevant` likewise
-  covers plain names written plain and canonical digit strings: escaped spellings of plain names (`\a `) and non-canonical numbers
-  (`[03:0]`) are outside the layout theorems (correspondence only); `verilog_text_to_net` is about the PRINTED text, its "any layout"
-  is `verilog_text_layout_irrelevant` composed by hand (same `parseVerilog` result), not a separate theorem.  NOT DONE: token classes
-  for keyword spellings.  (b) `circOfText` now contains the transformer's raise guard `RStmt.ok` (zero-width / out-of-base sized
+  **Audit finding 10, what was done and what stays restricted.**  (a) TOKEN CLASSES — done.  The layout theorems above quantify over
+  the layouts of the CANONICAL token stream (`INPUT`, plain names plain, canonical digits); the token-class theorems quantify over every
+  member of each token's SPELLING CLASS, the class being what the real lexer / `name` / `range` / `sigsel` callbacks map to the same value
+  (read off the grammar strings; probed against /repo: no spelling of a class builds a different circuit).  Bench: the keyword rules are
+  `("INPUT" | "input")`, `("OUTPUT" | "output")` — four case-SENSITIVE literals, one callback: `bench_text_keyword_class` (every interface
+  statement in its own spelling, any layout, trailing comment), `bench_text_keyword_class_netlist`, `bench_keyword_class_exact` (`isKw` =
+  the four literals), `bench_other_case_rejected` (`Input(a)`: syntax error in every layout).  Verilog: keywords are case-sensitive
+  literals WITHOUT `i` flag — one spelling each (`verilog_keyword_one_spelling`; `Input a;` / `MODULE` rejected: examples);
+  `VerilogTransformer.name` strips backslash and terminator, so an escaped spelling IS the plain name (`escaped_name_same`; there is no
+  `escaped_name_distinct`); `range` takes `int()`: `verilog_text_token_classes` — every name that is no statement keyword plain or
+  escaped (sized constants too: `\4'b0011 `), every range number in any digit string of its value (`[03:00]`), any layout
+  (`spellsB` / `sameTok`, spelled out by `verilog_token_class_def`; `verilog_text_layout_irrelevant` is the reflexive case).  Sized
+  constants are NAMES in the tree; their class is on the model of `sigsel`: `const_spelling_class` (same expansion ⇔ same width and same
+  value modulo `2^width` — bases `b d h` in either case, hex-digit case, leading zeros, excess digits; `const_base_letter_case`,
+  `const_leading_zeros`), from the tree `verilog_const_spelling_same_circuit` (`sameModule`/`sameConst`, incl. `int(width)` with
+  leading zeros and the raise guard), from TEXT `verilog_text_classes_same_circuit`, `verilog_text_classes_to_net`.  The grammar has no
+  base `o`, no `_`, no blank inside a constant, no sign letter (rejected: examples).  STILL RESTRICTED: one of the seven statement
+  keywords used as a NAME and written PLAIN where no statement begins (`wire input;`, `.input(a)`, `INV_X1 assign (…)`) is accepted by
+  `parseVerilog` (concrete examples, correspondence run) but is not a member of `sameTok`'s class (canonical: escaped); the converse
+  (every accepted text is a layout of a spelling of a tree) is not a theorem.  Correspondence/oracle: `harness/c11.py: class_stream`
+  re-prints every generated statement list with random class members (tags `token-class:*`) — model parser == lark == respelled
+  statement list, model circuit == real circuit (tie), real circuit of the respelled text == real circuit of the original text
+  (oracle class `token-class`, the text as replay).
+  **Audit 2, finding 1 — raise guard.**  `circOfText`'s guard only sets `err`, which `toNet` / `toNNet` ignore: `verilog_text_to_net`,
+  `verilog_text_classes_to_net`, C11Library `verilog_text_to_nnet`, `verilog_library_text_end_to_end` now carry `hpos`
+  (`m.stmts.any VStmt.hasPos = false`) and `hrok` (`rs.all RStmt.ok = true` — what the driver evaluates next to `verilogOKB`);
+  `verilog_text_accepted` / `verilog_text_rejected` say what the guard does; witness text `exBadM` (C11Library) is outside.  Bench has no
+  separate guard: `bench` sets `err` itself and `benchOKB` (hypothesis of every semantic bench theorem) IS `err = false`
+  (`bench_ok_is_no_error`).
+  (b) `circOfText` now contains the transformer's raise guard `RStmt.ok` (zero-width / out-of-base sized
   constants).  (c) `VModel` uses the builder's `assignPairs (sigDecls …)`, `outSig`, `inputNames`, `posNames`: bus-bit order, assign bit
   pairing, selects, concatenations, sized constants and declaration look-up are NOT re-specified inside the denotation; these clauses
   rest on `range_expand` (`rangeList` against the closed forms `l + i` / `l - i`), `const_expand` (against `Nat.testBit` of the parsed
@@ -791,6 +814,26 @@ theorem verilog_text_to_netlist (cfg : Cfg) (tl : TL) (m : VModule) (rs : List R
   have := verilog_text_roundtrip [m] (by simp [hv])
   simp only [KV.VerilogText.circOfText, this, hr]
 
+/-- **accepted texts** (audit 2, finding 1): the guard inside `circOfText` only SETS `err` — the dumps `toNet` / `toNNet` ignore it.
+Under the two hypotheses the driver evaluates on every case (`rs.all RStmt.ok`: no sized constant `sigsel` raises on, i.e. width ≥ 1
+and digits below the base; no positional pin — the statement lists the driver receives have none) the guard is off: the circuit of
+the text IS `module …` of the transformed statement list, `err` included.  Every text-level theorem below whose conclusion speaks
+about the built circuit or its meaning carries these two hypotheses; a text such as `INV_X1 u1(.I(1'b2), .ZN(n));` (real
+`verilog.parse`: `ValueError`) is outside. -/
+theorem verilog_text_accepted (cfg : Cfg) (tl : TL) (m : VModule) (rs : List RStmt) (hv : validModule m = true)
+    (hr : toRs m.stmts = some rs) (hpos : m.stmts.any VStmt.hasPos = false) (hrok : rs.all RStmt.ok = true) :
+    KV.VerilogText.circOfText cfg tl (printVerilog [m]) = some (module cfg tl m.ports (rs.map transform)) := by
+  rw [verilog_text_to_netlist cfg tl m rs hv hr, hpos, hrok]
+  simp [Circ.failIf]
+
+/-- … and conversely the guard: a positional pin or a constant outside `RStmt.ok` sets `err` (the model says: the real parser
+raises) -/
+theorem verilog_text_rejected (cfg : Cfg) (tl : TL) (m : VModule) (rs : List RStmt) (hv : validModule m = true)
+    (hr : toRs m.stmts = some rs) (h : m.stmts.any VStmt.hasPos = true ∨ rs.all RStmt.ok = false) :
+    (KV.VerilogText.circOfText cfg tl (printVerilog [m])).map (·.err) = some true := by
+  rw [verilog_text_to_netlist cfg tl m rs hv hr]
+  rcases h with h | h <;> simp [Circ.failIf, h]
+
 /-- the hypotheses are satisfiable: a module with a bus, escaped identifiers (one spelling a keyword), a sized constant, a
 nested concatenation, an unconnected and a positional pin, `tri`, `inout` -/
 def exVM : VModule := ⟨"top", ["a", "z.q", "e"],
@@ -1389,12 +1432,32 @@ theorem verilog_end_to_end8 (cfg : Cfg) (tl : TL) (ports : List String) (stmts :
     order ho hfk hall env
 
 /-- **from TEXT**: the net of the circuit built from the model's reading of the printed module text is `verilogNet` of the
-transformed statement list — so the theorems above speak about circuits parsed from text (`verilog_text_layout_irrelevant`: any layout) -/
+transformed statement list — so the theorems above speak about circuits parsed from text (any spelling, any layout:
+`verilog_text_classes_to_net`).  `hpos` / `hrok` (audit 2, finding 1): the text is inside the raise guard, i.e. not one the real
+parser rejects (`verilog_text_accepted`) -/
 theorem verilog_text_to_net (cfg : Cfg) (tl : TL) (m : KV.VerilogText.VModule) (rs : List RStmt)
-    (hv : KV.VerilogText.validModule m = true) (hr : KV.VerilogText.toRs m.stmts = some rs) :
+    (hv : KV.VerilogText.validModule m = true) (hr : KV.VerilogText.toRs m.stmts = some rs)
+    (hpos : m.stmts.any KV.VerilogText.VStmt.hasPos = false) (hrok : rs.all RStmt.ok = true) :
     (KV.VerilogText.circOfText cfg tl (KV.VerilogText.printVerilog [m])).map (fun C => C.toNet C.ioVerilog) =
       some (verilogNet cfg tl m.ports (rs.map transform)) := by
-  rw [verilog_text_to_netlist cfg tl m rs hv hr]
+  rw [verilog_text_accepted cfg tl m rs hv hr hpos hrok]
+  rfl
+
+/-- **from TEXT, every spelling and every layout** (token classes, audit finding 10(a)): for ANY text that spells the token stream
+of the module token by token with members of the spelling classes (`spellsB`) in any layout (`layoutOK`), inside the raise guard
+(`hpos`, `hrok`): the net of the circuit built from the model's reading of that text is `verilogNet` of the transformed statement
+list, and its `err` flag is the one of `module` -/
+theorem verilog_text_classes_to_net (cfg : Cfg) (tl : TL) (m : KV.VerilogText.VModule) (rs : List RStmt)
+    (hv : KV.VerilogText.validModule m = true) (hr : KV.VerilogText.toRs m.stmts = some rs)
+    (hpos : m.stmts.any KV.VerilogText.VStmt.hasPos = false) (hrok : rs.all RStmt.ok = true)
+    (g0 : List Char) (l : List (KV.VerilogText.CT × List Char))
+    (hl : KV.VerilogText.spellsB (l.map (·.1)) (KV.VerilogText.modulesT [m]) = true)
+    (hg0 : KV.VerilogText.gapV .ws g0 = true) (hlay : KV.VerilogText.layoutOK l = true) :
+    (KV.VerilogText.circOfText cfg tl (String.ofList (g0 ++ KV.VerilogText.renderL l))).map (fun C => (C.toNet C.ioVerilog, C.err)) =
+      some (verilogNet cfg tl m.ports (rs.map transform), (module cfg tl m.ports (rs.map transform)).err) := by
+  rw [KV.VerilogText.circOfText_of_parse cfg tl _ m (verilog_text_token_classes [m] (by simp [hv]) g0 l hl hg0 hlay)]
+  simp only [KV.VerilogText.circOfModule, hr, hpos, hrok]
+  simp [Circ.failIf]
   rfl
 
 /-! ### non-vacuity: `module m(a, z, y); input a; output z, y; wire n; DFF_X1 f (.D(n), .Q(q), .QN(qn));
